@@ -10,8 +10,7 @@
                   free list), the slot vector size, the pointer cell.
    Client state : accessor handles (bound slot index, owning thread, the client's own nesting depth, the
                   pointer it obtained in the current region), per thread a retire list (object, tick value).
-   Ghost        : freed objects, uaf (a reader used an object that had been reclaimed), rwl (an Accessor was
-                  released while the client's depth was >= 1).
+   Ghost        : freed objects, uaf (a reader used an object that had been reclaimed).
    tl = true    : thread-local style (Epoch::lock()/unlock()): handle t is thread t's slot, bound on first
                   use through the ThreadId allocator, which then is the allocator of this state; the
                   epoch's own accessor_number() is 0.  tl = false: Accessor style; ext = ThreadId::end<Epoch>()
@@ -44,6 +43,8 @@ Inductive pc :=
 | LkStore (h i : nat) (g : Z)          (* next: store g into the slot (relaxed) *)
 | LkFence (h i : nat)                  (* next: seq_cst fence *)
 | UlStore (h i : nat)                  (* lock_times == 1, next: store SLOT_IDLE (release) *)
+| RlStore (h i : nat)                  (* release() of a locked accessor, next: lock_times = 0; store SLOT_IDLE (release) *)
+| RlFree (h i : nat)                   (* next: IdAllocator::deallocate(index) *)
 | UTick (o : nat)                      (* o unlinked, next: tick *)
 | CNum (sz : nat)                      (* snapshot taken (size sz), next: accessor_number() *)
 | CNum2 (sz : nat)                     (* number == 0, next: ThreadId::end<Epoch>() *)
@@ -55,7 +56,7 @@ Record handle := { hidx : option nat; howner : nat; hdepth : Z; hheld : option n
 Record thread := { prog : list op; opi : nat; tpc : pc; results : list res; retired : list (nat * Z) }.
 Record st := {
   tl : bool; ext : nat;
-  gver : Z; cell : nat; nobj : nat; freed : list nat; uaf : bool; rwl : bool;
+  gver : Z; cell : nat; nobj : nat; freed : list nat; uaf : bool;
   slots : list slot; vsize : nat; anext : nat; afree : list nat;
   handles : list handle; threads : list thread
 }.
@@ -67,7 +68,7 @@ Definition mk_thread (p : list op) : thread := {| prog := p; opi := 0; tpc := Id
 
 Definition init (tlm : bool) (e : nat) (owners : list nat) (anext0 : nat) (afree0 : list nat) (vsize0 : nat)
                 (progs : list (list op)) : st :=
-  {| tl := tlm; ext := e; gver := VERSION_INIT; cell := 0; nobj := 1; freed := []; uaf := false; rwl := false;
+  {| tl := tlm; ext := e; gver := VERSION_INIT; cell := 0; nobj := 1; freed := []; uaf := false;
      slots := []; vsize := vsize0; anext := anext0; afree := afree0;
      handles := map mk_handle (if tlm then seq 0 (length progs) else owners);
      threads := map mk_thread progs |}.
@@ -90,35 +91,31 @@ Fixpoint set_nth {A} (n : nat) (x : A) (l : list A) : list A :=
 
 (* ---- field updates ---- *)
 Definition set_threads (s : st) (v : list thread) : st :=
-  {| tl := tl s; ext := ext s; gver := gver s; cell := cell s; nobj := nobj s; freed := freed s; uaf := uaf s; rwl := rwl s;
+  {| tl := tl s; ext := ext s; gver := gver s; cell := cell s; nobj := nobj s; freed := freed s; uaf := uaf s;
      slots := slots s; vsize := vsize s; anext := anext s; afree := afree s; handles := handles s; threads := v |}.
 Definition set_handles (s : st) (v : list handle) : st :=
-  {| tl := tl s; ext := ext s; gver := gver s; cell := cell s; nobj := nobj s; freed := freed s; uaf := uaf s; rwl := rwl s;
+  {| tl := tl s; ext := ext s; gver := gver s; cell := cell s; nobj := nobj s; freed := freed s; uaf := uaf s;
      slots := slots s; vsize := vsize s; anext := anext s; afree := afree s; handles := v; threads := threads s |}.
 Definition set_slots (s : st) (v : list slot) : st :=
-  {| tl := tl s; ext := ext s; gver := gver s; cell := cell s; nobj := nobj s; freed := freed s; uaf := uaf s; rwl := rwl s;
+  {| tl := tl s; ext := ext s; gver := gver s; cell := cell s; nobj := nobj s; freed := freed s; uaf := uaf s;
      slots := v; vsize := vsize s; anext := anext s; afree := afree s; handles := handles s; threads := threads s |}.
 Definition set_alloc (s : st) (n : nat) (f : list nat) : st :=
-  {| tl := tl s; ext := ext s; gver := gver s; cell := cell s; nobj := nobj s; freed := freed s; uaf := uaf s; rwl := rwl s;
+  {| tl := tl s; ext := ext s; gver := gver s; cell := cell s; nobj := nobj s; freed := freed s; uaf := uaf s;
      slots := slots s; vsize := vsize s; anext := n; afree := f; handles := handles s; threads := threads s |}.
 Definition set_vsize (s : st) (v : nat) : st :=
-  {| tl := tl s; ext := ext s; gver := gver s; cell := cell s; nobj := nobj s; freed := freed s; uaf := uaf s; rwl := rwl s;
+  {| tl := tl s; ext := ext s; gver := gver s; cell := cell s; nobj := nobj s; freed := freed s; uaf := uaf s;
      slots := slots s; vsize := v; anext := anext s; afree := afree s; handles := handles s; threads := threads s |}.
 Definition set_gver (s : st) (v : Z) : st :=
-  {| tl := tl s; ext := ext s; gver := v; cell := cell s; nobj := nobj s; freed := freed s; uaf := uaf s; rwl := rwl s;
+  {| tl := tl s; ext := ext s; gver := v; cell := cell s; nobj := nobj s; freed := freed s; uaf := uaf s;
      slots := slots s; vsize := vsize s; anext := anext s; afree := afree s; handles := handles s; threads := threads s |}.
 Definition set_cell (s : st) (c n : nat) : st :=
-  {| tl := tl s; ext := ext s; gver := gver s; cell := c; nobj := n; freed := freed s; uaf := uaf s; rwl := rwl s;
+  {| tl := tl s; ext := ext s; gver := gver s; cell := c; nobj := n; freed := freed s; uaf := uaf s;
      slots := slots s; vsize := vsize s; anext := anext s; afree := afree s; handles := handles s; threads := threads s |}.
 Definition set_freed (s : st) (v : list nat) : st :=
-  {| tl := tl s; ext := ext s; gver := gver s; cell := cell s; nobj := nobj s; freed := v; uaf := uaf s; rwl := rwl s;
+  {| tl := tl s; ext := ext s; gver := gver s; cell := cell s; nobj := nobj s; freed := v; uaf := uaf s;
      slots := slots s; vsize := vsize s; anext := anext s; afree := afree s; handles := handles s; threads := threads s |}.
 Definition set_uaf (s : st) (v : bool) : st :=
-  {| tl := tl s; ext := ext s; gver := gver s; cell := cell s; nobj := nobj s; freed := freed s; uaf := v; rwl := rwl s;
-     slots := slots s; vsize := vsize s; anext := anext s; afree := afree s; handles := handles s; threads := threads s |}.
-
-Definition set_rwl (s : st) (v : bool) : st :=
-  {| tl := tl s; ext := ext s; gver := gver s; cell := cell s; nobj := nobj s; freed := freed s; uaf := uaf s; rwl := v;
+  {| tl := tl s; ext := ext s; gver := gver s; cell := cell s; nobj := nobj s; freed := freed s; uaf := v;
      slots := slots s; vsize := vsize s; anext := anext s; afree := afree s; handles := handles s; threads := threads s |}.
 
 Definition get_slot (s : st) (i : nat) : slot := getn slot0 (slots s) i.
@@ -139,6 +136,7 @@ Definition skip (s : st) (t : nat) (th : thread) : st := upd_thread s t (finish 
 (* ---- the client's view of a handle ---- *)
 Definition h_bind (hd : handle) (i : nat) : handle := {| hidx := Some i; howner := howner hd; hdepth := 0; hheld := None |}.
 Definition h_unbind (hd : handle) : handle := {| hidx := None; howner := howner hd; hdepth := 0; hheld := None |}.
+Definition h_drop (hd : handle) : handle := {| hidx := hidx hd; howner := howner hd; hdepth := 0; hheld := None |}.
 Definition h_give (hd : handle) (t : nat) : handle := {| hidx := hidx hd; howner := t; hdepth := hdepth hd; hheld := hheld hd |}.
 Definition h_enter (hd : handle) : handle := {| hidx := hidx hd; howner := howner hd; hdepth := hdepth hd + 1; hheld := hheld hd |}.
 Definition h_leave (hd : handle) : handle :=
@@ -214,8 +212,9 @@ Definition begin_op (s : st) (t : nat) (th : thread) (o : op) : st :=
     if negb (tl s) && mine s t h then
       match hidx (get_h s h) with
       | None => skip s t th
-      | Some i => upd_thread (put_h (set_alloc (set_rwl s (rwl s || (1 <=? hdepth (get_h s h)))) (anext s) (i :: afree s)) h (h_unbind (get_h s h))) t
-                          (finish th RRelease)
+      | Some i =>      (* unregister_accessor: slot = _slots[index]; if (slot.lock_times != 0) ... *)
+        if release_locked (lt (get_slot s i)) then upd_thread s t (goto th (RlStore h i))
+        else upd_thread s t (goto th (RlFree h i))
       end
     else skip s t th
   | OGive h t' =>
@@ -258,6 +257,11 @@ Definition step_thread (s : st) (t : nat) (th : thread) : option st :=
   | UlStore h i =>
     Some (upd_thread (put_h (put_slot s i {| ver := unlock_value; lt := lt (get_slot s i) - unlock_dec |}) h (h_leave (get_h s h)))
                      t (finish th RUnlock))
+  | RlStore h i =>     (* lock_times is private to the owner: its reset is placed with the store it precedes *)
+    Some (upd_thread (put_h (put_slot s i {| ver := release_value; lt := release_lock_times |}) h (h_drop (get_h s h))) t
+                     (goto th (RlFree h i)))
+  | RlFree h i =>
+    Some (upd_thread (put_h (set_alloc s (anext s) (i :: afree s)) h (h_unbind (get_h s h))) t (finish th RRelease))
   | UTick o =>
     let T := tick_ret + gver s in
     Some (upd_thread (set_gver s (gver s + tick_inc)) t (finish (with_retired th (retired th ++ [(o, T)])) (RUnlink o T)))
